@@ -37,6 +37,9 @@ func init() {
 			return nil
 		})
 		regI(pre+"Iterator", "ascending iterator over a snapshot of the (prefix) store", func(x *Exec, st *State, ci *callInfo, recv Val, a []Val) Val {
+			if h, ok := x.prefixRangeHandle(st, recv, a); ok {
+				return x.newIterator(st, h, false, "")
+			}
 			x.iterBounds(st, a)
 			return x.newIterator(st, x.storeOf(recv), false, "")
 		})
@@ -173,6 +176,9 @@ func init() {
 			st.assume(r, "param range")
 		}
 		x.storeTo(st, p, x.e.reflect(st, v, et), et, ci.pos)
+		return nil
+	})
+	reg("(github.com/cosmos/cosmos-sdk/x/params/types.Subspace).SetParamSet", "writes the module Params to the params store (a separate store that is not modelled: the write is ignored)", func(x *Exec, st *State, ci *callInfo, a []Val) Val {
 		return nil
 	})
 	reg("(github.com/cosmos/cosmos-sdk/x/params/types.Subspace).GetParamSet", "*ptr = the module Params (ghost constant)", func(x *Exec, st *State, ci *callInfo, a []Val) Val {
@@ -389,6 +395,35 @@ func (x *Exec) bankOp(st *State, ci *callInfo, a []Val, k func(*State, Val), app
 	st.assume(pre, "bank operation succeeded => sufficient funds")
 	x.tryPath(func() { k(st, &ErrV{IsNil: TTrue}) })
 	x.tryPath(func() { k(es, &ErrV{IsNil: TFalse}) })
+}
+
+// prefixRangeHandle: Iterator(start, end) with (start, end) = prefixRange(p) iterates the keys with byte prefix p.
+func (x *Exec) prefixRangeHandle(st *State, recv Val, a []Val) (*storeHandle, bool) {
+	if len(a) != 2 {
+		return nil, false
+	}
+	start, ok := a[0].(T)
+	end, ok2 := a[1].(*OpaqueV)
+	if !ok || !ok2 || end.Tag != "prefixEnd" || end.Data["of"].(T).S != start.S {
+		return nil, false
+	}
+	h := *x.storeOf(recv)
+	p := start
+	if h.Prefix != nil {
+		p = Concat(*h.Prefix, start)
+	}
+	h.Prefix = &p
+	return &h, true
+}
+
+func init() {
+	for _, pk := range []string{"github.com/MinterTeam/mhub2/module/x/oracle/keeper", "github.com/MinterTeam/mhub2/module/x/mhub2/keeper"} {
+		reg(pk+".prefixRange", "ASSUMED contract of a repository function: prefixRange(p) = (p, first key after all keys with byte prefix p), for a non-empty p", func(x *Exec, st *State, ci *callInfo, a []Val) Val {
+			p := tt(a[0])
+			x.panicIf(st, Eq(StrLen(p), IntLit(0)), "prefixRange-empty-prefix-not-modelled", ci.pos)
+			return &TupleV{Vs: []Val{p, &OpaqueV{Tag: "prefixEnd", Data: map[string]Val{"of": p}}}}
+		})
+	}
 }
 
 func (x *Exec) iterBounds(st *State, a []Val) {
